@@ -33,6 +33,12 @@ func runC11(e *Env) {
 	e.Flow(func(c *flow.Ctx) { c.RuleDateFieldStores(sp) })
 	ruleC11Wire(e)
 	ruleC11Strict(e)
+	// the summaries used by C11.inv (New, FromTime on in-range components) are themselves obligations
+	ruleNewDeleg(e, "C11.new")
+	if a := newDateAbs(e); a != nil {
+		ruleFromTime(e, "C11.new", a)
+	}
+	e.S.Floor("C11.new", 7)
 	ruleWrap(e, "C11.wrap", "date")
 	e.S.Floor("C11.wire", 8)
 	e.S.Floor("C11.inv", 3)
